@@ -183,6 +183,48 @@ def _filter(specs, only):
 
 QUICK_EXTRA = [96, 100, 120, 127, 128, 243, 255, 256, 257]
 
+# smallest length of every structurally distinct recipe the scalar planner designs for n <= 1024
+# (signature = recipe with lengths erased but RadixN factor lists and Radix4 depths kept); computed from
+# the unchanged tree and used as a fallback when the live computation below is not available
+STATIC_SHAPE_REPS = [0, 2, 10, 18, 37, 41, 50, 59, 60, 61, 64, 71, 74, 75, 82, 83, 84, 98, 100, 101, 111, 118, 122, 123, 125, 126, 127, 128, 132, 142, 148,
+                     164, 166, 177, 180, 183, 185, 196, 198, 200, 202, 205, 210, 213, 222, 236, 242, 244, 246, 249, 250, 252, 254, 259, 270, 284, 286, 287, 294, 295, 296]
+
+
+def shape_reps(symlift, upto=1024):
+    """-> (sorted representatives, [(n, recipe_len)] where the designed recipe has the wrong length).
+    One representative (the smallest n) per structurally distinct recipe of the CURRENT tree's scalar planner,
+    through the plan-report hook; nothing is built."""
+    try:
+        rc, out, err = C.sh([symlift, "shapes", str(upto)], timeout=600)
+        if rc != 0:
+            return None, []
+        sig, bad = {}, []
+        for l in out.splitlines():
+            n, ln, shape = l.split("\t")
+            n, ln = int(n), int(ln)
+            if ln != n:
+                bad.append((n, ln))
+            t = re.sub(r"Butterfly\d+", "Bf", shape)
+            t = re.sub(r"Factor(\d)", lambda m: "F" + "abcdefgh"[int(m.group(1))], t)
+            t = re.sub(r"k: (\d+)", lambda m: "k" + "abcdefghijklmnop"[min(15, int(m.group(1)))], t)
+            t = re.sub(r"\d+", "#", t)
+            sig.setdefault(t, n)
+        return sorted(sig.values()), bad
+    except Exception:
+        return None, []
+
+
+def shape_lens(symlift, tier, quick_max, thorough_max=1024):
+    reps, bad = shape_reps(symlift)
+    if reps is None:
+        reps = STATIC_SHAPE_REPS
+    out = [n for n in reps if n <= quick_max and max_prime_factor(n) <= 131]
+    if tier == "thorough":
+        out += [n for n in reps if quick_max < n <= thorough_max and max_prime_factor(n) <= 131]
+    # lengths whose designed recipe does not even have the requested length go in regardless of size
+    out += [n for n, _ in bad[:6] if n <= 4096]
+    return sorted(set(out)), bad
+
 
 def lens_quick():
     return list(range(0, 65)) + QUICK_EXTRA
@@ -206,12 +248,15 @@ def check_c01(pid, tier, seed, only):
         res.inconclusive.append("symlift does not build against /repo: " + err[-300:])
         return res
     ns = lens_quick() if tier == "quick" else lens_thorough()
+    reps, bad = shape_lens(e1.symlift, tier, 300, 600)
+    ns = sorted(set(ns) | set(reps))
     specs = [f"c01:n={n}:dir={d}" for n in ns for d in ("fwd", "inv")]
     specs += [f"c01:n={n}:dir={d}:planner=scalar" for n in (0, 1, 2, 30, 59, 64) for d in ("fwd", "inv")]
     specs = _filter(specs, only)
     s = e1.run(specs, cost=e1_cost)
     res.add_e1("planned FFT == unnormalised DFT, four entry points, symbolic scratch/output contents, scratch of exactly the advertised length",
-               e1, s, {"lengths": f"{len(ns)} lengths, max {max(ns)}", "directions": 2, "entry_points": 4, "planners": "FftPlanner::<Sym> (falls through the AVX/SSE TypeId gates to the scalar planner), FftPlannerScalar::<Sym>",
+               e1, s, {"lengths": f"{len(ns)} lengths, max {max(ns)}", "shape_representatives": f"{len(reps)} lengths: the smallest n of every structurally distinct recipe the current tree's scalar planner designs for n <= 1024 (quick: n <= 300; largest prime factor <= 131)",
+                       "recipes_with_wrong_length_found_by_the_plan_report_sweep_(native)": bad[:10], "directions": 2, "entry_points": 4, "planners": "FftPlanner::<Sym> (falls through the AVX/SSE TypeId gates to the scalar planner), FftPlannerScalar::<Sym>",
                        "per_query_cap_s": e1.cap, "M_max_bits": e1.max_m_bits})
     return res
 
@@ -234,6 +279,10 @@ def check_c06(pid, tier, seed, only):
         ns = list(range(1, 65)) + [96, 100, 120, 128, 243, 256]
     else:
         ns = sorted(set(range(1, 129)) | {144, 160, 180, 192, 200, 216, 240, 243, 250, 256, 288, 320, 343, 360, 384, 400, 480, 500, 512, 729, 1024})
+    exe, _, _ = C.build_symlift()
+    if exe:
+        reps, _bad = shape_lens(exe, tier, 200, 512)
+        ns = sorted(set(ns) | {n for n in reps if n >= 1})
     specs = [f"c06:n={n}" for n in ns] + [f"c06:n={n}:planner=scalar" for n in (1, 2, 7, 30, 37, 59, 64)]
     res, _ = _simple_e1(pid, tier, seed, only, specs,
                         "one planner plans both directions (both planning orders): inv(fwd(x)) = n*x, fwd(inv(x)) = n*x, inv(x) = conj(fwd(conj x)) for all x; oracle-free, both sides are symbolic executions",
@@ -273,7 +322,15 @@ def check_c07(pid, tier, seed, only):
 
 def check_c08_e1(pid, tier, seed, only, res=None):
     ns = lens_quick() if tier == "quick" else sorted(set(range(0, 129)) | {144, 160, 180, 192, 200, 243, 255, 256, 257, 289, 320, 360, 384, 512})
+    exe, _, _ = C.build_symlift()
+    if exe:
+        reps, _bad = shape_lens(exe, tier, 160, 300)
+        ns = sorted(set(ns) | set(reps))
     specs = [f"c08:n={n}:dir={d}" for n in ns for d in ("fwd", "inv")]
+    # directly constructed transforms the planner never builds (e.g. Bluestein over a wide inner FFT)
+    for t in ["BL(3,S8_0_0_0)", "BL(5,S16_0_0_0)", "BL(4,B11)", "BL(6,P17)", "R4B(1,S3_3_0_3)", "R4B(1,S2_5_0_1)", "RA(S4_9_2_0)", "RA(S6_3_0_6)", "MR(S2_5_2_1,B3)", "GT(B3,S4_0_3_8)", "RN(2.3,S1_4_0_0)", "R3B(1,S2_2_0_2)"]:
+        for d in ("fwd", "inv"):
+            specs.append(f"c12:tree={t}:dir={d}")
     return _simple_e1(pid, tier, seed, only, specs,
                       "scratch of exactly the advertised length, +1, +17 and x2, initial scratch and output contents symbolic: out == DFT(x) for all x AND all scratch/output contents, three explicit-scratch entry points",
                       {"lengths": f"{len(ns)} lengths, max {max(ns)}", "directions": 2, "scratch_lengths": "advertised + {0, 1, 17, advertised}", "planner": "FftPlanner::<Sym>", "taint_queries": "per query: can an output be syntactically influenced (NaN-taint) by an initial scratch/output value"}, taint=True)
@@ -331,6 +388,10 @@ def check_c10(pid, tier, seed, only):
 
 def check_c14(pid, tier, seed, only):
     ns = (list(range(0, 41)) + [59, 64, 100, 127, 128]) if tier == "quick" else [n for n in lens_thorough() if n <= 400]
+    exe, _, _ = C.build_symlift()
+    if exe:
+        reps, _bad = shape_lens(exe, tier, 128, 300)
+        ns = sorted(set(ns) | set(reps))
     specs = [f"c14:n={n}:dir={d}" for n in ns for d in ("fwd", "inv")]
     res, e1 = _simple_e1(pid, tier, seed, only, specs,
                          "element type Sym (16 bytes, neither f32 nor f64): every SIMD planner declines (native fact per obligation), FftPlanner::<Sym> falls back to portable code that only uses ring operations and from_f64/from_usize constants (anything else aborts the symbolic run) and equals the DFT exactly for all inputs",
@@ -377,13 +438,13 @@ HELPERS = ["fft_helper_inplace_well", "fft_helper_inplace_ill", "fft_helper_outo
 
 # quick tiers: explicit lists of harnesses that decide in about a minute each when run alone
 QUICK_E2 = {
-    "C15": hq(BFS, ["imm_well_k1"]) + hq(["bf2", "bf4", "bf8", "dft2"], ["imm_well_k2"]) + hq(WRAP, ["imm_well_k1"]),
+    "C15": hq(BFS, ["imm_well_k1"]) + hq(["bf1", "bf2", "bf4", "bf8", "dft2"], ["imm_well_k2"]) + hq(WRAP, ["imm_well_k1"]),
     "C03": hq(["bf2", "bf3", "bf4", "bf5", "bf6", "bf7", "bf8", "dft2", "dft3", "r4_4", "r4_8", "r3_3"], ["oop_well_k1"])
            + hq(["bf2", "bf3", "bf4", "bf5", "bf6"], ["ps_ill", "oop_ill", "imm_ill"]) + hq(["dft2", "r4_4", "r3_3"], ["ps_ill"])
            + hq(["mr_2x3", "mrs_2x3", "r4b_1_1"], ["ps_well_k1", "oop_well_k1"]) + hh(*CONTRACTS),
     "C09": hh(*HELPERS) + hh(*CONTRACTS) + hq(["bf1"], ["oop_ill", "imm_ill", "ps_well_k1"]) + hq(["bf2", "bf3", "bf4", "bf5"], ["ps_ill", "oop_ill", "imm_ill", "ps_well_k1"]) + hq(["dft2", "r4_4", "r3_3"], ["ps_ill", "ps_well_k1"])
            + hq(["mr_2x2", "rn_2_b1"], ["ps_well_k1"]),
-    "C07": hq(["bf2", "bf3", "bf4"], ["ps_well_k2", "oop_well_k2", "imm_well_k2", "ps_well_k3", "oop_well_k3", "imm_well_k3"])
+    "C07": hq(["bf1"], ["oop_well_k2", "imm_well_k2", "imm_well_k3"]) + hq(["bf2", "bf3", "bf4"], ["ps_well_k2", "oop_well_k2", "imm_well_k2", "ps_well_k3", "oop_well_k3", "imm_well_k3"])
            + hq(["bf8", "dft2", "r4_4", "r3_3"], ["ps_well_k2", "oop_well_k2"]) + hq(["mr_2x2", "mrs_2x3"], ["ps_well_k2"])
            + hh("validate_and_iter_unroll2x_contract", "validate_and_zip_unroll2x_contract", "validate_and_zip_mut_unroll2x_contract", "validate_and_iter_contract"),
     "C08": hq(["mr_2x3", "mr_2x2", "mrs_2x3", "gts_2x3", "r4b_1_1", "r3b_1_1", "rn_3_b2", "rn_23_b1", "rader3", "blue1_1"], ["ps_well_k1", "oop_well_k1", "imm_well_k1"])
@@ -399,9 +460,10 @@ def hs_(units, names):
 
 # SSE kernels (cargo feature "sse" of the harness crate; arithmetic intrinsics replaced by lane-wise scalar models)
 QUICK_SSE = {
-    "C03": hs_(["sse_f32_bf2"], ["ps_mem_k3_for", "oop_mem_k3_for"]) + hs_(["sse_f32_bf4"], ["oop_mem_k3_for"]) + hs_(["sse_f64_bf3"], ["imm_mem_k2_for"]) + hs_(["sse_f32_bf3"], ["oop_ill"]) + hs_(["sse_f64_bf2"], ["imm_ill"]),
+    "C03": hs_(["sse_f32_bf2"], ["ps_mem_k3_for", "oop_mem_k3_for"]) + hs_(["sse_f32_bf4"], ["oop_mem_k3_for"]) + hs_(["sse_f64_bf3"], ["imm_mem_k2_for"]) + hs_(["sse_f32_bf3"], ["oop_ill"]) + hs_(["sse_f64_bf2"], ["imm_ill"])
+           + hs_(["sse_f32_bf7"], ["ps_mem_k1_for"]) + hs_(["sse_f32_bf9"], ["oop_mem_k1_for"]),
     "C07": hs_(["sse_f32_bf2"], ["ps_iso_k3", "oop_iso_k3", "imm_iso_k3"]) + hs_(["sse_f32_bf4"], ["ps_iso_k2"]) + hs_(["sse_f64_bf2"], ["oop_iso_k3"]),
-    "C15": hs_(["sse_f32_bf2", "sse_f32_bf4"], ["imm_mem_k3_for"]) + hs_(["sse_f64_bf4"], ["imm_mem_k2_for"]) + hs_(["sse_f32_bf3"], ["imm_iso_k2"]),
+    "C15": hs_(["sse_f32_bf2", "sse_f32_bf4"], ["imm_mem_k3_for"]) + hs_(["sse_f64_bf4"], ["imm_mem_k2_for"]) + hs_(["sse_f32_bf2"], ["imm_iso_k3"]) + hs_(["sse_f32_bf3"], ["imm_ill"]),
     "C09": hs_(["sse_f32_bf2"], ["ps_ill", "oop_ill", "imm_ill"]) + hs_(["sse_f64_bf4"], ["oop_ill"]),
 }
 SSE_TITLE = "SSE kernels (f32/f64 hand-written and prime butterflies, via the verif-hooks re-export): exact-size caller buffers, every vector load/store in bounds incl. the two-chunks-at-a-time path and its odd tail; 2-safety non-interference between chunks (same call twice with independent arbitrary contents of the other chunks: bit-identical outputs); immutable input bit-identical to its snapshot; ill-shaped calls panic on every path"
